@@ -16,7 +16,8 @@ def setup():
     lakefile = open(os.path.join(core.LEAN_DIR, "lakefile.toml")).read()
     for f in sorted(glob.glob(os.path.join(os.path.dirname(os.path.abspath(__file__)), "props", "C*.py"))):
         m = importlib.import_module("props." + os.path.basename(f)[:-3])
-        if getattr(m, "READY", False):
+        claimed = __import__("json").load(open(os.path.join(os.path.dirname(os.path.abspath(__file__)), "claimed.json")))
+        if getattr(m, "READY", False) and m.ID in claimed:
             mods += getattr(m, "LEAN_MODULES", [])
             for d in getattr(m, "LEAN_DRIVERS", []):
                 if f'name = "drv_{d.lower()}"' in lakefile:
